@@ -1,7 +1,14 @@
 (* C19 — banned directives are always rejected and never change anything else.
-   Statements only; proofs in Proofs/C19Proofs.v.  PARTIAL: the theorems are about the
-   forest the ban check walks (the expanded forest); "builds exactly as without the option"
-   for the rest of the pipeline is checked on the implementation (identical JSON). *)
+   Statements only; proofs in Proofs/C19Proofs.v and Proofs/BanBuild.v.  Proved for the whole
+   catalog build of the model, for every forest, ban list, body text and fuel: no banned kind in
+   the forest -> the build equals the build without the option; a banned kind in the forest ->
+   refused with the not-allowed error on a banned directive of the forest, unless the build fails
+   identically with and without the option.  PARTIAL: "the forest" is the expanded forest the
+   builder walks; for kinds that never reach it (INCLUDE, MACRO, PASTE, bodies of unused macros)
+   the full statement is refuted (F18).  "Exactly as without the option" for the phases before
+   the builder holds trivially in the model (they do not take the option) and is checked on the
+   implementation (identical JSON / identical error). *)
+From JS Require Import BanBuild.
 From JS Require Import Base Bytes Scanner Directive Core Expand Ban C19Proofs.
 From JS Require DirectiveTables.
 
@@ -20,6 +27,33 @@ Theorem C19_neutral_when_absent :
     first_banned fuel banned forest = None.
 Proof. exact ban_neutral. Qed.
 
+(* THE WHOLE BUILD of the model (collectTags, the rule passes, addDirectives, validateCatalog), for
+   every forest, ban list, body text and fuel: a forest in which no banned kind occurs at any
+   depth builds exactly as without the option ... *)
+Theorem C19_build_is_unchanged_when_no_banned_kind_occurs :
+  forall read_body banned fuel forest,
+    all_unbanned banned forest = true ->
+    Catalog.build_catalog read_body banned fuel forest = Catalog.build_catalog read_body [] fuel forest.
+Proof. exact build_neutral_when_no_banned_kind_occurs. Qed.
+
+(* ... and a forest in which one occurs is refused: with the not-allowed error on a banned
+   directive of that forest, unless the build fails identically with and without the option
+   (another error comes first) *)
+Theorem C19_build_refuses_a_banned_kind :
+  forall read_body banned fuel forest,
+    all_unbanned banned forest = false ->
+    (exists d0, is_banned banned d0 = true /\ within_forest d0 forest /\
+                Catalog.build_catalog read_body banned fuel forest = not_allowed d0) \/
+    (Catalog.build_catalog read_body banned fuel forest = Catalog.build_catalog read_body [] fuel forest /\
+     is_ok (Catalog.build_catalog read_body [] fuel forest) = false).
+Proof. exact build_refuses_a_banned_kind. Qed.
+
+Theorem C19_accepted_build_has_no_banned_kind :
+  forall read_body banned fuel forest c,
+    Catalog.build_catalog read_body banned fuel forest = Core.COk c -> all_unbanned banned forest = true.
+Proof. exact accepted_build_has_no_banned_kind. Qed.
+
+
 (* FULL STATEMENT refuted: finding F18 *)
 Theorem C19_refuted_include_macro_paste_unused_body :
   f18_kinds <> [] /\
@@ -31,3 +65,6 @@ Proof. exact ban_not_consulted_refuted. Qed.
 Print Assumptions C19_first_banned_directive_is_found.
 Print Assumptions C19_neutral_when_absent.
 Print Assumptions C19_refuted_include_macro_paste_unused_body.
+Print Assumptions C19_build_is_unchanged_when_no_banned_kind_occurs.
+Print Assumptions C19_build_refuses_a_banned_kind.
+Print Assumptions C19_accepted_build_has_no_banned_kind.
